@@ -19,8 +19,10 @@ let parse_op (o : string) : pop * string list =
   | ["H"; n] -> PH n, [n]
   | ["W"; n] | ["Wr"; n] -> PW n, [n]
   | ["X"] -> PX, []
-  | ["Cf"; c; n] -> PCf (c, n), [c; n]
-  | ["Rf"; c; n] -> PRf (c, n), [c; n]
+  (* Cl / Rl: the write cannot be done because another connection holds the write lock - for the model the same as a
+     failed COMMIT: the operation changes nothing and must be reported as failed *)
+  | ["Cf"; c; n] | ["Cl"; c; n] -> PCf (c, n), [c; n]
+  | ["Rf"; c; n] | ["Rl"; c; n] -> PRf (c, n), [c; n]
   | ["RACE"; n] -> PRace n, [n]
   | ["OVL"; h; n] -> POvl ("ovl", h, n), [h; n]
   | ["SLW"; h; n] -> POvl ("slw", h, n), [h; n]
